@@ -22,8 +22,10 @@ class Handle:
 
 
 class World:
-    def __init__(self, ps, pids=(7, 8, 9), ncpu=4, with_pid0=False):
+    def __init__(self, ps, pids=(7, 8, 9), ncpu=4, with_pid0=False, prime=True):
         self.ps = ps
+        self.prime = prime
+        self.seen_objs = {}
         self.t = ProcTable(btime=B0, ncpu=ncpu, self_pid=2)
         self.t.spawn(1, 1, ppid=0, comm=b"init")
         self.t.spawn(2, 2, ppid=1, comm=b"harness")
@@ -45,11 +47,13 @@ class World:
         self.vk.__enter__()
         ps = self.ps
         ps.PROCFS_PATH = "/vproc"
-        # fresh-program state through public API only
-        ps.boot_time()
-        ps.process_iter.cache_clear()
-        list(ps.process_iter())
-        ps.process_iter.cache_clear()
+        if self.prime:
+            # fresh-program state through public API only
+            ps.boot_time()
+            ps.process_iter.cache_clear()
+            list(ps.process_iter())
+            ps.process_iter.cache_clear()
+        # prime=False: the interpreter *is* fresh (first case of a new process): nothing has been cached yet
         self.vk.events.clear()
         self.vk.log.clear()
         return self
@@ -140,6 +144,17 @@ class World:
             if res[0] == "ok":
                 rec["res"] = ("ok", [p.pid for p in res[1]])
                 rec["objs"] = res[1]
+                # every object is a handle of the incarnation that owned the pid when the object was first yielded
+                # (process_iter creates it at that listing); remembered for every iteration, kept on request
+                for p in res[1]:
+                    if id(p) not in self.seen_objs:
+                        self.seen_objs[id(p)] = [p, self.cur_inc(p.pid), self.tick, False]
+                if len(op) > 1 and op[1] == "keep":
+                    for p in res[1]:
+                        ent = self.seen_objs[id(p)]
+                        if p.pid >= 7 and not ent[3] and ent[1] is not None:
+                            ent[3] = True
+                            self.handles.append(Handle(p, p.pid, ent[1], ent[2]))
             else:
                 rec["res"] = res
             rec["model"] = sorted(t.procs)
